@@ -14,6 +14,10 @@ generated reward tables (Model/Rewards.lean).
   RN-collect <contract> <addr>                                     | ok <znn> <qsr>  /  err nothing
   RN-dep <contract> <addr>                                         | <znn> <qsr>
   RN-cursor <contract>                                             | <cursor>
+  RN-stake-amounts <epoch> <start> <end> <n> {addr start revoke weighted}*     | addr:qsr …      (credited per address, first-appearance order, zeros omitted)
+  RN-sentinel-amounts <epoch> <start> <end> <n> {addr registered revoked}*     | addr:znn:qsr …
+  RN-pillar-amounts <epoch> <momentumsPerEpoch> <totalWeight> <n> {produced expected weight giveBlock% giveDelegate% rewardAddr nBackers|x {addr amount}*}*
+                                                                                | addr:znn …
 -/
 namespace ZV.Driver
 open ZV ZV.EpochCursor
@@ -64,6 +68,111 @@ def rnEmission (contract : String) (mpe : Int) (e : Nat) : Option (Int × Int) :
   | "stake" => do pure (0, ← Rewards.stakeQsrRewardPerEpoch e)
   | "sentinel" => Rewards.sentinelRewardForEpoch e
   | "liquidity" => Rewards.liquidityRewardForEpoch e
+  | _ => none
+
+/-- `n` groups of `k` tokens -/
+def rnGroups (k : Nat) : Nat → List String → Option (List (List String))
+  | 0, [] => some []
+  | 0, _ :: _ => none
+  | n + 1, xs => if xs.length < k then none else do
+      let rest ← rnGroups k n (xs.drop k)
+      pure (xs.take k :: rest)
+
+/-- sum per address in order of first appearance -/
+def rnPerAddr (xs : List (String × Int × Int)) : List (String × Int × Int) :=
+  xs.foldl (fun acc (a, z, q) =>
+    if acc.any (·.1 == a) then acc.map (fun (b, z0, q0) => if b == a then (b, z0 + z, q0 + q) else (b, z0, q0))
+    else acc ++ [(a, z, q)]) []
+
+/-- one pillar of an `RN-pillar-amounts` line -/
+structure RNPillar where
+  stat    : Rewards.PillarStat
+  gb      : Int
+  gd      : Int
+  reward  : String
+  backers : Option (List (String × Int))   -- none: no delegation record for the epoch
+
+def rnParsePillars : Nat → List String → Option (List RNPillar)
+  | 0, [] => some []
+  | 0, _ :: _ => none
+  | n + 1, pr :: ex :: w :: gb :: gd :: ra :: nb :: rest => do
+      let pr ← pr.toNat?
+      let ex ← ex.toNat?
+      let w ← w.toInt?
+      let gb ← gb.toInt?
+      let gd ← gd.toInt?
+      if nb = "x" then
+        let more ← rnParsePillars n rest
+        pure (⟨⟨pr, ex, w⟩, gb, gd, ra, none⟩ :: more)
+      else
+        let k ← nb.toNat?
+        if rest.length < 2 * k then none else
+        let gs ← rnGroups 2 k (rest.take (2 * k))
+        let bs ← gs.mapM (fun g => match g with
+          | [a, x] => do pure (a, ← x.toInt?)
+          | _ => none)
+        let more ← rnParsePillars n (rest.drop (2 * k))
+        pure (⟨⟨pr, ex, w⟩, gb, gd, ra, some bs⟩ :: more)
+  | _, _ => none
+
+def rnJoin (xs : List String) : String := if xs.isEmpty then "-" else " ".intercalate xs
+
+/-- the reward arithmetic of Model/Rewards.lean on the entries found on the real chain -/
+def rnAmounts : List String → Option String
+  | "RN-stake-amounts" :: e :: st :: en :: n :: rest => do
+      let e ← e.toNat?
+      let st ← st.toInt?
+      let en ← en.toInt?
+      let n ← n.toNat?
+      let gs ← rnGroups 4 n rest
+      let ents ← gs.mapM (fun g => match g with
+        | [a, s, r, w] => do pure (a, Rewards.weightedStake (← s.toInt?) (← r.toInt?) (← w.toInt?) st en)
+        | _ => none)
+      match Rewards.stakeQsrRewardPerEpoch e with
+      | none => pure "panic"
+      | some T =>
+        let rs := Rewards.stakeRewardsForEpoch T (ents.map (·.2))
+        let per := rnPerAddr ((ents.zip rs).map (fun ((a, _), r) => (a, 0, r)))
+        pure (rnJoin ((per.filter (fun (_, _, q) => q != 0)).map (fun (a, _, q) => s!"{a}:{q}")))
+  | "RN-sentinel-amounts" :: e :: st :: en :: n :: rest => do
+      let e ← e.toNat?
+      let st ← st.toInt?
+      let en ← en.toInt?
+      let n ← n.toNat?
+      let gs ← rnGroups 3 n rest
+      let ents ← gs.mapM (fun g => match g with
+        | [a, s, r] => do pure (a, Rewards.weightedSentinel (← s.toInt?) (← r.toInt?) st en)
+        | _ => none)
+      match Rewards.sentinelRewardForEpoch e with
+      | none => pure "panic"
+      | some (Tz, Tq) =>
+        let rs := Rewards.sentinelRewardsForEpoch Tz Tq (ents.map (·.2))
+        let per := rnPerAddr ((ents.zip rs).map (fun ((a, _), (z, q)) => (a, z, q)))
+        pure (rnJoin ((per.filter (fun (_, z, q) => z != 0 || q != 0)).map (fun (a, z, q) => s!"{a}:{z}:{q}")))
+  | "RN-pillar-amounts" :: e :: mpe :: w :: n :: rest => do
+      let e ← e.toNat?
+      let mpe ← mpe.toInt?
+      let W ← w.toInt?
+      let n ← n.toNat?
+      let ps ← rnParsePillars n rest
+      let stats := ps.map (·.stat)
+      let dp : Option (Int × Int) := do
+        let nz ← Rewards.networkZnnRewardPerEpoch e
+        let d ← Rewards.div64 (← Rewards.pctOf nz Gen.DelegationZnnRewardPercentage) mpe
+        let p ← Rewards.div64 (← Rewards.pctOf nz Gen.MomentumProducingZnnRewardPercentage) mpe
+        pure (d, p)
+      match dp with
+      | none => pure "panic"
+      | some (d, p) =>
+        let credits := ps.flatMap (fun pl =>
+          let r := Rewards.pillarRewardForEpoch d p W stats pl.stat
+          match pl.backers with
+          | none => [(pl.reward, r.total - Int.tdiv (pl.gb * r.block + pl.gd * r.delegation) 100, (0 : Int))]
+          | some bs =>
+            let (pp, shares) := Rewards.pillarSplit r pl.gb pl.gd (bs.map (·.2))
+            (pl.reward, pp, (0 : Int)) :: (bs.zip shares).map (fun ((a, _), x) => (a, x, (0 : Int))))
+        let per := rnPerAddr credits
+        pure (rnJoin ((per.filter (fun (_, z, _) => z != 0)).map (fun (a, z, _) => s!"{a}:{z}")))
   | _ => none
 
 def rnStep (s : RNState) : List String → Option (RNState × String)
@@ -126,7 +235,7 @@ def rnStep (s : RNState) : List String → Option (RNState × String)
   | ["RN-cursor", c] => do
       let k ← rnFind s c
       pure (s, toString k.st.cursor)
-  | _ => none
+  | t => (rnAmounts t).map (fun o => (s, o))
 
 def rewardsNodeObj : Obj := mkObj (⟨none, 0, []⟩ : RNState) rnStep
 
